@@ -44,6 +44,21 @@ pub trait Grp: 'static {
     /// G::from(Affine::from_jacobian(p))
     fn affine_roundtrip(p: Self::L) -> Option<Self::L>;
 
+    /// further publicly reachable ways of computing A+B, A-B, -A (e.g. operator forms of an exposed inner type);
+    /// each must denote the same point as the plain operator
+    fn extra_forms(_a: Self::L, _b: Self::L) -> Vec<(&'static str, Self::L)> {
+        vec![]
+    }
+    /// `==`, `is_zero` and the affine conversion through other publicly reachable routes (inner type of G1)
+    fn extra_eq(_a: &Self::L, _b: &Self::L) -> Option<bool> {
+        None
+    }
+    fn extra_is_zero(_a: &Self::L) -> Option<bool> {
+        None
+    }
+    fn extra_to_affine(_a: &Self::L) -> Option<Option<(Self::B, Self::B)>> {
+        None
+    }
     fn denotes(p: &Self::L) -> Aff<Self::B> {
         let (x, y, z) = Self::coords(p);
         jac_to_aff(&x, &y, &z)
@@ -182,6 +197,38 @@ impl Grp for GA {
     }
     fn affine_roundtrip(p: G1) -> Option<G1> {
         AffineG1::from_jacobian(p).map(G1::from)
+    }
+    /// `G1` is declared `pub struct G1(pub groups::G1)`: the operator forms of the inner Jacobian type are reachable
+    /// by any user as `a.0 + b.0`, `a.0 + &b.0`, `&a.0 + b.0`, `t += b.0`, `t += &b.0`, `a.0 - b.0`, `-a.0`
+    fn extra_eq(a: &G1, b: &G1) -> Option<bool> {
+        Some(a.0 == b.0)
+    }
+    fn extra_is_zero(a: &G1) -> Option<bool> {
+        use sm9_core::Zero;
+        Some(a.0.is_zero())
+    }
+    fn extra_to_affine(a: &G1) -> Option<Option<(F, F)>> {
+        // the inner affine type only exposes x()/y() by reference to the internal field type; go back through the public
+        // wrapper: to_affine().to_jacobian() has z = 1 and carries the affine coordinates
+        Some(a.0.to_affine().map(|p| {
+            let j = G1(p.to_jacobian());
+            (f_of_fq(&j.x()), f_of_fq(&j.y()))
+        }))
+    }
+    fn extra_forms(a: G1, b: G1) -> Vec<(&'static str, G1)> {
+        let mut out = vec![];
+        out.push(("add:a.0 + b.0", G1(a.0 + b.0)));
+        out.push(("add:a.0 + &b.0", G1(a.0 + &b.0)));
+        out.push(("add:&a.0 + b.0", G1(&a.0 + b.0)));
+        let mut t = a.0;
+        t += b.0;
+        out.push(("add:t += b.0", G1(t)));
+        let mut t = a.0;
+        t += &b.0;
+        out.push(("add:t += &b.0", G1(t)));
+        out.push(("sub:a.0 - b.0", G1(a.0 - b.0)));
+        out.push(("neg:-a.0", G1(-a.0)));
+        out
     }
 }
 
